@@ -5,5 +5,6 @@ cd "$HERE" || exit 1
 PY="${VERIF_PYTHON:-/venv/bin/python}"
 [ -x "$PY" ] || PY=python3
 mkdir -p build evidence
-if [ -f shim/build.sh ]; then sh shim/build.sh || echo "shim build failed: falling back to the python parser"; fi
+# build.sh is a bash script (set -o pipefail): never run it with /bin/sh (dash here)
+if [ -f shim/build.sh ]; then bash shim/build.sh || echo "shim build failed: falling back to the python parser"; fi
 PYTHONDONTWRITEBYTECODE=1 PYTHONPATH="$HERE" "$PY" -c "from vt import boot; print('parser:', boot.init())"
